@@ -409,76 +409,81 @@ def _under_literal_name(F, rn):
 
 
 def _check_abbr(ctx, plen):
+    """FixedOffsetToAbbr by abstract execution (sa/strabs.py): the name is a string of tokens, each digit position either
+    the digit zero or a non-zero digit; one run per assignment of the two classes to the six digit positions and per sign
+    (128) covers every name of the long form, plus one run for the name that is not of the long form (unchanged)."""
+    import itertools
+    from ..strabs import StrExec, NotInterpreted
+    from ..frontend import body_of
     u, f = ctx.fn('cctz::FixedOffsetToAbbr')
-    F = ctx.facts(f)
-    g = ctx.cfg(f)
-    fold = Folder(u)
-    # symbolic layout of "<prefix>+hh:mm:ss"
-    layout0 = ['P'] * plen + ['sign', 'h1', 'h2', ':a', 'm1', 'm2', ':b', 's1', 's2']
-    # walk every simple path, applying erase() and interpreting abbr[i] == '0' tests
-    results = []
-
-    def step(n, lay, conds, onpath):
-        if n.kind == 'stmt' and n.ast is not None:
-            for x in walk(n.ast):
-                if x.get('kind') == 'CXXMemberCallExpr' and callee(x) and callee(x)[1] == 'erase':
-                    a = [fold.fold(y) for y in call_args(x)]
-                    if len(a) == 2 and None not in a and lay is not None:
-                        lay = lay[:a[0]] + lay[a[0] + a[1]:]
-                    else:
-                        lay = None
-            if n.ast.get('kind') == 'ReturnStmt':
-                results.append((lay, conds))
-                return
-        for (m, lab) in n.succs:
-            if m.id in onpath:
-                continue
-            c2 = conds
-            if n.kind == 'cond' and lab in ('T', 'F'):
-                for (op, a, b) in F.cond_facts(n.ast, lab == 'T'):
-                    mm = re.match(r'^\w+#0x[0-9a-f]+\[n:(\d+)\]$', a) or re.match(r'^\w+#0x[0-9a-f]+\[n:(\d+)\]$', b)
-                    val = b if mm and mm.string == a else a
-                    if mm and lay is not None and int(mm.group(1)) < len(lay):
-                        c2 = c2 + ((lay[int(mm.group(1))], op, val),)
-                    elif '.size()' in a + b:
-                        c2 = c2 + (('size', op, b if '.size()' in a else a),)
-            step(m, lay, c2, onpath | {m.id})
-    step(g.entry, layout0, (), {g.entry.id})
-    full = [r for r in results if r[0] is not None and ('size', '==', 'n:%d' % (plen + 9)) in r[1]]
-    if len(full) < 3:
-        ctx.unknown('C15-abbr', 'abbreviation layouts', f, 'could not follow the edits of the abbreviation string (%d full-name paths): '
-                    'only erase(pos, n) with constant arguments is interpreted' % len(full), construct='abbr-paths')
+    strs = [x for x in walk(f) if x.get('kind') == 'VarDecl' and 'basic_string' in ((dtype(x) or '') + (qtype(x) or '')) or
+            x.get('kind') == 'VarDecl' and re.match(r'^(const )?std::string$', qtype(x) or '')]
+    strs = [x for x in strs if kids(x) and any(y.get('kind') == 'CallExpr' and callee(y) and callee(y)[0] == 'fn' and
+                                                callee(y)[1].get('name') == 'FixedOffsetToName' for y in walk(x))]
+    if len(strs) != 1:
+        ctx.unknown('C15-abbr', 'abbreviation layouts', f, 'the string FixedOffsetToAbbr edits (initialised from FixedOffsetToName) was not '
+                    'found (%d candidates)' % len(strs), construct='abbr-paths')
         return
-    seen = {}
-    for (lay, conds) in full:
-        s_zero = ('s1', '==', 'n:48') in conds and ('s2', '==', 'n:48') in conds
-        m_zero = ('m1', '==', 'n:48') in conds and ('m2', '==', 'n:48') in conds
-        has_s_test = any(c[0] in ('s1', 's2') for c in conds)
-        has_m_test = any(c[0] in ('m1', 'm2') for c in conds)
+    var = strs[0]['id']
+    try:
+        from ..table import one_var
+        up, dp = one_var(ctx.P, 'cctz::kFixedZonePrefix')
+        lit = [y for y in walk(dp) if y.get('kind') == 'StringLiteral'][0].get('value', '').strip('"')
+    except Exception:
+        lit = ''
+    prefix = [('P%d' % i, 'O', lit[i]) if len(lit) == plen else ('P%d' % i, 'O') for i in range(plen)]
+    names = ['h1', 'h2', 'm1', 'm2', 's1', 's2']
+    groups = {}
+    not_interp = None
+    for classes in itertools.product('ZN', repeat=7):
+        sign_ch = '+' if classes[6] == 'Z' else '-'
+        classes = classes[:6]
+        cl = dict(zip(names, classes))
+        toks = prefix + [('sign', 'O', sign_ch), ('h1', cl['h1']), ('h2', cl['h2']), (':a', 'O', ':'), ('m1', cl['m1']), ('m2', cl['m2']),
+                         (':b', 'O', ':'), ('s1', cl['s1']), ('s2', cl['s2'])]
+        s_zero = cl['s1'] == 'Z' and cl['s2'] == 'Z'
+        m_zero = cl['m1'] == 'Z' and cl['m2'] == 'Z'
         if s_zero and m_zero:
-            want = ['sign', 'h1', 'h2']
-            case = 'mm == 00 and ss == 00'
+            want, case = ['sign', 'h1', 'h2'], 'mm == 00 and ss == 00'
         elif s_zero:
-            want = ['sign', 'h1', 'h2', 'm1', 'm2']
-            case = 'ss == 00, mm != 00'
+            want, case = ['sign', 'h1', 'h2', 'm1', 'm2'], 'ss == 00, mm != 00'
         else:
-            want = ['sign', 'h1', 'h2', 'm1', 'm2', 's1', 's2']
-            case = 'ss != 00'
-        ok = lay == want and has_s_test and (has_m_test or not s_zero)
-        key = (case, tuple(lay))
-        if key in seen:
-            continue
-        seen[key] = 1
-        ctx.check(ok, 'C15-abbr', 'abbreviation when %s is %s' % (case, ''.join(_abbr(x) for x in want)), f,
-                  'when %s the abbreviation is laid out as %s, the documented form is %s (seconds are dropped only when '
-                  'zero, minutes only when minutes and seconds are zero)' % (case, ''.join(_abbr(x) for x in lay),
-                                                                              ''.join(_abbr(x) for x in want)),
-                  construct='abbr:%s' % case, detail=''.join(_abbr(x) for x in lay))
-    ctx.minimum('C15-abbr', 3)
+            want, case = ['sign', 'h1', 'h2', 'm1', 'm2', 's1', 's2'], 'ss != 00'
+        try:
+            r = StrExec(u, var, toks).run(body_of(f))
+        except NotInterpreted as ex:
+            not_interp = str(ex)
+            break
+        got = [t[0] for t in r[1]] if isinstance(r, tuple) and r[0] == 'str' else None
+        g_ = groups.setdefault(case, {'want': want, 'n': 0, 'bad': []})
+        g_['n'] += 1
+        if got != want:
+            g_['bad'].append((''.join(classes), got))
+    if not_interp is None:
+        try:
+            toks = [('U', 'O', 'U'), ('T', 'O', 'T'), ('C', 'O', 'C')]
+            r = StrExec(u, var, toks).run(body_of(f))
+            got = [t[0] for t in r[1]] if isinstance(r, tuple) and r[0] == 'str' else None
+            groups['the name is not of the long form'] = {'want': ['U', 'T', 'C'], 'n': 1, 'bad': [] if got == ['U', 'T', 'C'] else [('UTC', got)]}
+        except NotInterpreted as ex:
+            not_interp = str(ex)
+    if not_interp is not None:
+        ctx.unknown('C15-abbr', 'abbreviation layouts', f, 'could not follow the edits of the abbreviation string: %s' % not_interp,
+                    construct='abbr-paths')
+        return
+    for case, g_ in sorted(groups.items()):
+        want = g_['want']
+        b = g_['bad'][0] if g_['bad'] else None
+        ctx.check(not g_['bad'], 'C15-abbr', 'abbreviation when %s is %s' % (case, ''.join(_abbr(x) for x in want)), f,
+                  'when %s (digit classes hhmmss = %s, Z = the digit 0, N = another digit) the abbreviation is laid out as %s, the '
+                  'documented form is %s (seconds are dropped only when zero, minutes only when minutes and seconds are zero)'
+                  % (case, b[0] if b else '', ''.join(_abbr(x) for x in (b[1] or [])) if b else '', ''.join(_abbr(x) for x in want)),
+                  construct='abbr:%s' % case, detail='%d digit-class assignments executed abstractly' % g_['n'])
+    ctx.minimum('C15-abbr', 4)
 
 
 def _abbr(t):
-    return {'sign': '+', 'h1': 'h', 'h2': 'h', 'm1': 'm', 'm2': 'm', 's1': 's', 's2': 's', ':a': ':', ':b': ':', 'P': 'P'}.get(t, '?')
+    return {'sign': '+', 'h1': 'h', 'h2': 'h', 'm1': 'm', 'm2': 'm', 's1': 's', 's2': 's', ':a': ':', ':b': ':', 'P': 'P'}.get(t, 'P' if t.startswith('P') else t if len(t) == 1 else '?')
 
 
 class _BufObs(Observer):
